@@ -1355,6 +1355,31 @@ theorem src_run_successor_total (h g m t : Bool) :
     nextPc skeleton { halting := h, go := g, more := m, inThreads := t, raises := true } .write = .finAcq := by
   cases h <;> cases g <;> cases m <;> cases t <;> decide
 
+open ALV.Gen.C17 in
+/-- **C17.src.10 src_main_successor** — the same for the control thread, inside each call: at every
+program counter of `stepMain` that is a yield point of `AudioIO.play` (with `AudioThread.__init__`
+inlined), `AudioIO.close` (with `thread.stop()` inlined) or `pause` / `play` / `stop` of a thread
+(`mpcMethod`; all but `begin`, `done` and the script's own `join`), EVERY step in EVERY state goes to
+the yield point `nextY skeleton m …` computes from the regenerated method `m` under the guard values of
+that state (`mainGv`: `finished`, `wait`, "`_threads[0]` raises", "the assert fails", and for the
+release of the manager's lock in `close` whether the block was left by the `break`) — or the
+interpreter says the method is over, exactly where the model returns to the script (`mpcReturns`: the
+last lock release, also the one caused by `raise ThreadError` / the failing `assert`); until then the
+program counter stays in the method.  So the branch structure of `close` (already finished → only the
+lock; look at `_threads[0]` under the lock, `break` on IndexError through the release; `stop()` unless
+`wait`; `join`; back to the loop head; the assert; `terminate`; release) and of `play` (raise through
+the release / `go.set`, `open`, `start`, release) is read from the source. -/
+theorem src_main_successor (cfg : Cfg) (hf : some cfg.fixed = srcFixed) (s s' : State) (m : String) (y : Y)
+    (hm : mpcMethod s.mpc = some m) (hy : mpcY true s.mpc = some y) (hs : stepMain cfg s = some s') :
+    nextY skeleton m (mainGv cfg s) y = some (if mpcReturns s.mpc then none else mpcY true s'.mpc) ∧
+    (mpcReturns s.mpc = false → mpcMethod s'.mpc = some m) := by
+  have hfix : cfg.fixed = true := by
+    have := src_variant_is_modelled.1; rw [this] at hf; exact Option.some.inj hf
+  exact main_pc_is_nextY cfg hfix s s' m y hm hy hs
+
+/-- the method names of `mpcMethod` are those of `src_ctl_is_model` -/
+theorem ctlMeth_is_ctlMethod : ctlMeth = ctlMethod := by funext k; cases k <;> rfl
+
 /-- **C17.src.8 src_shutdown** — the liveness clause for the source AS READ: for the configuration
 whose `fixed` switch is the one extracted from `lazy_io.py` on this run, `wait=False`, every schedule
 of a script that calls `close` (no `join`), continued while some thread is enabled, ends with `close`
